@@ -16,6 +16,7 @@ mod pnm;
 mod obj;
 mod tex;
 mod target;
+mod raster;
 
 use std::io::{BufRead, BufWriter, Write};
 
@@ -60,6 +61,7 @@ fn subsystem(name: &str) -> Option<(GenFn, ExecFn)> {
         "obj" => (obj::gen, obj::exec),
         "tex" => (tex::gen, tex::exec),
         "target" => (target::gen, target::exec),
+        "raster" => (raster::gen, raster::exec),
         _ => return None,
     })
 }
